@@ -1,5 +1,140 @@
-import Cellml.Basic.Sexp
-/-! Channel C19 of the model driver (stub: not built yet). -/
+import Cellml.Units.Wire
+import Cellml.Units.Rules
+
+/-! Channel C19:
+    `(C19 (stores (0 new) (1 share 0) ...) (defs d...) (steps s...))` → `((defs r...) (steps r...))`.
+    Steps run in order against one world (registries with their enabled rules, newest first):
+      `(rule from to (mul|div (num "1.1")|(sym "Cm") unit) ...)`   `add_conversion_rule(from, to, lambda ureg, rhs: rhs * … / …)`
+      `(factor a b)`                                               `get_conversion_factor`
+      `(convert "q" a b)`                                          `convert(Quantity(q, a), b)` (multiplier of the magnitude)
+      `(cv a b input|output plain|defined|state|free hasInit nOdes)` `Model.convert_variable`
+    Unit expressions are those of `Units.Wire.unitExpr?`. -/
 namespace C19
-def handle (_args : List Sexp) : Sexp := .atom "not-implemented"
+open Sexp Units Units.Wire
+
+def uerr : UErr → Sexp
+  | .dimensionality => .list [.atom "err", .atom "DimensionalityError"]
+  | .undefinedUnit => .list [.atom "err", .atom "UndefinedUnitError"]
+  | .valueError => .list [.atom "err", .atom "ValueError"]
+  | .other w => .list [.atom "err", .atom "Other", .str w]
+
+structure State where
+  world : World
+  rules : List (Nat × Rule) := []       -- (registry index, rule), newest first
+
+def State.rulesOf (st : State) (ri : Nat) : List Rule :=
+  (st.rules.filter (fun p => p.1 == ri)).map (·.2)
+
+/-- several unit expressions that must live in one registry -/
+def unitsIn (w : World) (es : List Sexp) : Except Sexp (Nat × Registry × List Container) := do
+  let mut ri? : Option Nat := none
+  let mut cs : List Container := []
+  for e in es do
+    match unitExpr? w e with
+    | .ok (ri, c) =>
+        -- the unit `dimensionless` (and every CellML built-in) exists in every registry: an empty expression or one
+        -- made of built-ins of store 0 still names its store's registry, which is what `unitExpr?` reports
+        match ri? with
+        | some r => if r != ri then throw (.list [.atom "err", .atom "CrossRegistry"])
+        | none => ri? := some ri
+        cs := cs ++ [c]
+    | .error "different-registries" => throw (.list [.atom "err", .atom "CrossRegistry"])
+    | .error e => throw (.list [.atom "err", .atom e])
+  let ri := ri?.getD 0
+  match w.regs[ri]? with
+  | some reg => pure (ri, reg, cs)
+  | none => throw (.atom "bad-store")
+
+def mag? : Sexp → Option Mag
+  | .list [.atom "num", t] => do
+      let s ← atomOf? t
+      let q ← Decimal.parse s
+      let sc ← Factor.rat q
+      some (.num sc)
+  | .list [.atom "sym", t] => do
+      let s ← atomOf? t
+      some (.sym s)
+  | _ => none
+
+def ofSyms (y : Syms) : Sexp :=
+  .list (.atom "syms" :: (PMap.norm y).map (fun (k, e) => .list [.str k, ofRat e]))
+
+def ofResult (f : Scale) (y : Syms) (n : Nat) : Sexp :=
+  .list [.atom "ok", ofScale f, ofSyms y, .list [.atom "paths", ofNat n]]
+
+def formName : EqForm → String
+  | .newFromOrig => "new-from-orig" | .newFromRhs => "new-from-rhs" | .origFromNew => "orig-from-new"
+  | .odeOfNew => "ode-of-new" | .odeWrtNew => "ode-wrt-new"
+
+def step (st : State) : Sexp → State × Sexp
+  | .list (.atom "rule" :: fromU :: toU :: facs) =>
+      let parsed : Option (List (Bool × Mag × Sexp)) := facs.mapM (fun f =>
+        match f with
+        | .list [.atom "mul", m, u] => (mag? m).map (fun m => (false, m, u))
+        | .list [.atom "div", m, u] => (mag? m).map (fun m => (true, m, u))
+        | _ => none)
+      match parsed with
+      | none => (st, .list [.atom "unsupported", .str "rule body"])
+      | some ps =>
+          match unitsIn st.world (fromU :: toU :: ps.map (·.2.2)) with
+          | .error e => (st, e)
+          | .ok (ri, reg, fc :: tc :: us) =>
+              let fs : List RFactor := (ps.zip us).map (fun (p, u) => { inv := p.1, mag := p.2.1, unit := u })
+              ({ st with rules := (ri, mkRule reg fc tc fs) :: st.rules }, .atom "ok")
+          | .ok _ => (st, .atom "bad-step")
+  | .list [.atom "factor", a, b] =>
+      match unitsIn st.world [a, b] with
+      | .error e => (st, e)
+      | .ok (ri, reg, [ca, cb]) =>
+          let rules := st.rulesOf ri
+          let n := shortestCount rules (dimsOf reg ca) (dimsOf reg cb)
+          match conversionFactorR reg rules ca cb with
+          | .ok none => (st, .list [.atom "ok", .atom "one", .list [.atom "paths", ofNat n]])
+          | .ok (some (f, y)) => (st, ofResult f y n)
+          | .error e => (st, uerr e)
+      | .ok _ => (st, .atom "bad-step")
+  | .list [.atom "convert", _, a, b] =>
+      match unitsIn st.world [a, b] with
+      | .error e => (st, e)
+      | .ok (ri, reg, [ca, cb]) =>
+          let rules := st.rulesOf ri
+          let n := shortestCount rules (dimsOf reg ca) (dimsOf reg cb)
+          match convertQ reg rules ca cb with
+          | .ok (f, y) => (st, ofResult f y n)
+          | .error e => (st, uerr e)
+      | .ok _ => (st, .atom "bad-step")
+  | .list [.atom "cv", a, b, .atom dir, .atom kind, hasInit, nOdes] =>
+      match unitsIn st.world [a, b] with
+      | .error e => (st, e)
+      | .ok (ri, reg, [ca, cb]) =>
+          let rules := st.rulesOf ri
+          let d : Dir := if dir == "input" then .input else .output
+          let k : VarKind := if kind == "defined" then .defined else if kind == "state" then .state
+                             else if kind == "free" then .free else .plain
+          let n := shortestCount rules (dimsOf reg ca) (dimsOf reg cb)
+          match convertVariable reg rules ca cb d k (atomOf? hasInit == some "true") ((nat? nOdes).getD 0) with
+          | .same => (st, .list [.atom "same"])
+          | .converted (f, y) initScaled eqs =>
+              (st, .list [.atom "converted", ofScale f, ofSyms y, ofBool initScaled,
+                          .list (.atom "eqs" :: eqs.map (fun e => .list [.atom (formName e), ofInt e.exponent])),
+                          .list [.atom "paths", ofNat n]])
+          | .error (.units e) => (st, uerr e)
+          | .error .typeError => (st, .list [.atom "err", .atom "TypeError"])
+      | .ok _ => (st, .atom "bad-step")
+  | _ => (st, .atom "bad-step")
+
+def steps (st : State) : List Sexp → List Sexp
+  | [] => []
+  | s :: ss =>
+      let (st', r) := step st s
+      r :: steps st' ss
+
+def handle (args : List Sexp) : Sexp :=
+  match args with
+  | [.list (.atom "stores" :: ss), .list (.atom "defs" :: ds), .list (.atom "steps" :: qs)] =>
+      let w0 := mkWorld ss
+      let (w, rs) := applyDefs w0 ds
+      .list [.list (.atom "defs" :: rs), .list (.atom "steps" :: steps { world := w } qs)]
+  | _ => .atom "bad-request"
+
 end C19
